@@ -11,7 +11,7 @@
 (* Messages are message CLASSES: records of the attributes that the         *)
 (* handler's guards read.  Block ids refer to the world.                    *)
 (***************************************************************************)
-EXTENDS World, Difficulty, TLC
+EXTENDS World, Difficulty, Sampling, TLC
 
 VARIABLES
     world,      \* the abstract chain (constant within a scenario)
@@ -111,6 +111,19 @@ ReqOk(s, b, r) ==
             \* Sampling!WellFormed constrains bnd / ds (property C15); here only the shape
             /\ r.bnd >= st.td /\ r.bnd <= Td(world, b)
 
+\* C15: the sampled part of a request as actually sent (judged on logged requests only; the
+\* model-checking oracle fixes ds = <<>>).  The real start (before the rebase) decides the mode.
+SamplesOk(s, b, r) ==
+    LET st == StartOf(s) IN
+    WellFormed([startNum |-> st.num, lastNum |-> Num(world, b), startTd |-> st.td,
+                lastTd |-> Td(world, b), bnd |-> r.bnd, ds |-> r.ds, nosample |-> Num(world, b) - st.num <= LastN,
+                tight |-> r.bnd = st.td + 1])
+
+GenesisSamplesOk(b, r) ==
+    WellFormed([startNum |-> 0, lastNum |-> Num(world, b), startTd |-> 0,
+                lastTd |-> Td(world, b), bnd |-> r.bnd, ds |-> r.ds, nosample |-> Num(world, b) <= LastN,
+                tight |-> r.bnd = 1])
+
 GenesisReqOk(b, r) ==
     /\ r.on /\ r.last = b /\ ~r.skip /\ r.fork
     /\ r.startNum = 0 /\ r.start = Genesis
@@ -159,7 +172,7 @@ GetLastStateProof(pm, p, o) ==
     ELSE LET r == PickReq(o, p, s, s.last) IN
          [pm |-> [pm EXCEPT ![p] = RequestProof(s, r, now).s],
           sent |-> {GetProofMsg(p, r)},
-          legal |-> ReqOk(s, s.last, r)]
+          legal |-> ReqOk(s, s.last, r) /\ (o.mode # "log" \/ SamplesOk(s, s.last, r))]
 
 (***************************************************************************)
 (* Environment                                                             *)
@@ -374,6 +387,7 @@ RecvProof(p, m, o) ==
             IF CanBuild(s, m.last)
             THEN LET r == PickSkipReq(o, p, s, m.last) IN
                  /\ ReqOk(s, m.last, [r EXCEPT !.skip = FALSE]) /\ r.skip
+                 /\ (o.mode # "log" \/ SamplesOk(s, m.last, r))
                  /\ peer' = [peer EXCEPT ![p] = RequestProof(s, r, now).s]
                  /\ out' = Sent({GetProofMsg(p, r)})
                  /\ UNCHANGED <<tip, tipTD, lastN>>
@@ -405,6 +419,7 @@ RecvProof(p, m, o) ==
                          /\ UNCHANGED <<tip, tipTD, lastN>>
                          /\ IF Num(world, m.last) > 0
                             THEN /\ GenesisReqOk(m.last, r)
+                                 /\ (o.mode # "log" \/ GenesisSamplesOk(m.last, r))
                                  /\ peer' = [peer EXCEPT ![p] = RequestProof(s, r, now).s]
                                  /\ out' = Sent({GetProofMsg(p, r)})
                             ELSE /\ UNCHANGED peer /\ out' = NoOut
